@@ -109,8 +109,10 @@ class Report:
         os.replace(tmp, os.path.join(EVID, f"{self.prop}{os.environ.get('VERIF_EVID_SUFFIX', '')}.json"))
         for k in self.known:
             print(f"KNOWN-FINDING: property={self.prop} {k}")
-        for p, text in self.violations:
-            print(f"VIOLATION property={self.prop} replay={p}" + (f"  # {text}" if text else ""))
+        for p, text in self.violations[:5]:
+            print(f"VIOLATION property={self.prop} replay={p}" + (f"  # {text[:600]}" if text else ""))
+        if len(self.violations) > 5:
+            print(f"... {len(self.violations) - 5} more violations (replay files under replay/{self.prop}/)")
         for h in self.harness_errors[:10]:
             print(f"HARNESS-ERROR property={self.prop} {h}", file=sys.stderr)
         summ = {k: v for k, v in cov.items() if isinstance(v, (int, float, bool))}
